@@ -134,7 +134,16 @@ def impl_inventory():
 
 
 def run(chk, replay=None):
-    proof = proof_check(PID)
+    import gen_datum
+    gen_sources()
+    try:
+        rows = gen_datum.main(REPO, gen_dir())
+        chk.cov["datum_impls_translated"] = len(rows)
+        proof = proof_check(PID, gen_theorems=("C03DatumOps",))
+    except gen_datum.ParseError as ex:
+        proof = proof_check(PID)
+        proof["ok"] = False
+        proof["problems"].append("translator tools/gen_datum.py cannot read the current source: %s" % ex)
     drv = build_driver()
     exe = build_harness("default")
     cfg = harness_config(exe)
@@ -147,6 +156,27 @@ def run(chk, replay=None):
     cases, tags = gen(rng, chk.tier, cfg)
     correspondence(chk, cases, tags, exe, drv, okb=okb,
                    describe=lambda c, o: {"program": c[3:], "result": dec_val(o)[0] if o and isinstance(o[0], int) else o})
+    # stream level and device level: the same law where timestamped values are combined by the arithmetic / logic
+    # streams (C02's cases and oracle) and by device updates and terminal averaging (C08's cases and oracle)
+    import c02, c08, c13
+    cs2, tg2 = c02.gen(rng, "quick", cfg, c02.make_pow_query(exe, cfg))
+    keep = [i for i, c in enumerate(cs2) if c[3] in (1, 2, 3, 4, 5, 6, 10, 11, 13)]
+    if chk.tier == "quick": keep = keep[::3]
+    correspondence(chk, [cs2[i] for i in keep], ["stream:" + tg2[i] for i in keep], exe, drv, okb=c02.okb,
+                   describe=lambda c, o: {"combinator": c02.NAMES.get(c[3]), "inputs": c[6:], "result_twice": o})
+    exe_d = build_harness("devices"); cfg_d = harness_config(exe_d)
+    cs8, tg8 = c08.gen(rng, cfg_d, chk.tier != "quick")
+    if chk.tier == "quick": cs8, tg8 = cs8[::2], tg8[::2]
+    # negative and i64-extreme timestamps on every terminal of an axle / inverter / gear train / differential
+    from world_gen import dev_spec, world_case, rstate
+    for kind, kw in [(1, {}), (2, {}), (3, {"n": 2}), (3, {"n": 4}), (4, {"distrust": 3}), (4, {"distrust": 1})]:
+        for _ in range(20):
+            enc, n = dev_spec(rng, kind, **kw)
+            base = rng.choice([-10**12, I64_MIN + 5, -7, I64_MAX - 20, 0])
+            ops = [[3, i, base + rng.randint(0, 9)] + rstate(rng) for i in range(n)] + [[7], [5, 0], [7]]
+            cs8.append(world_case(cfg_d, 0, [enc], ops)); tg8.append("times/%d" % kind)
+    correspondence(chk, cs8, ["device:" + t for t in tg8], exe_d, drv, okb=c08.okb,
+                   describe=lambda c, o: {"case_head": c[:40], "output_head": o[:40]})
     inv = impl_inventory()
     chk.cov["datum_impl_headers_in_source"] = len(inv)
     chk.cov["operator_forms_exercised"] = len(FORMS) + 2
@@ -158,7 +188,7 @@ def run(chk, replay=None):
         chk.notes.append("src/datum.rs now has %d operator impls for Datum (34 when the operator table was written): new impls are not covered until the table is extended" % len(inv))
     if not proof["ok"] and not chk.violations:
         chk.violation("proof obligations of C03 no longer check: " + "; ".join(proof["problems"])[:1500],
-                      {"theorem_file": "coq/theories/Properties/C03.v", "problems": proof["problems"]}, False)
+                      {"theorem_file": "coq/theories/Properties/C03.v ; coq/gen_theorems/C03DatumOps.v over build/gen/GenDatumOps.v", "problems": proof["problems"]}, False)
     return chk.finish(proof,
         rule="operator form x payload type x timestamp pair class (<,=,>, adjacent, negative, i64 extremes), values random; distinct = distinct (form, model result)",
-        checker_cmd="make -C coq ; coqc Properties/C03.v", trusted=std_trusted())
+        checker_cmd="make -C coq ; coqc Properties/C03.v ; coqc gen_theorems/C03DatumOps.v", trusted=std_trusted() + ["translator tools/gen_datum.py (recursive-descent parser for the Rust subset used by the bodies of src/datum.rs; fails rather than skips)"])
